@@ -33,6 +33,8 @@ struct St {
 struct Ctl {
   m: Mutex<St>,
   cv: Condvar,
+  /// whether lock acquisitions go into the trace (the subject cases compare them with the model)
+  record_acq: bool,
 }
 
 thread_local! {
@@ -59,7 +61,7 @@ impl Ctl {
 }
 
 /// A gate of the current thread: `lock` = the mutex about to be locked (None: a yield point).
-fn gate(lock: Option<(usize, &dyn Fn() -> bool)>) {
+pub(crate) fn gate(lock: Option<(usize, &dyn Fn() -> bool)>) {
   let me = ME.with(|m| m.borrow().as_ref().map(|x| (x.0.clone(), x.1, x.3)));
   let Some((ctl, tid, started)) = me else { return };
   if started {
@@ -77,15 +79,17 @@ fn gate(lock: Option<(usize, &dyn Fn() -> bool)>) {
     let mut st = ctl.m.lock().unwrap();
     let n = st.names.len();
     let name = *st.names.entry(addr).or_insert(n);
-    st.trace.push(format!("(a {tid} {name})"));
+    if ctl.record_acq {
+      st.trace.push(format!("(a {tid} {name})"));
+    }
   }
 }
 
-fn cur() -> (usize, usize) {
+pub(crate) fn cur() -> (usize, usize) {
   ME.with(|m| m.borrow().as_ref().map(|x| (x.1, x.2)).unwrap_or((9, 0)))
 }
 
-fn log(s: String) {
+pub(crate) fn log(s: String) {
   if let Some(ctl) = ME.with(|m| m.borrow().as_ref().map(|x| x.0.clone())) {
     ctl.log(s);
   }
@@ -178,14 +182,35 @@ pub fn run_ileave(body: &[Sexp]) -> String {
   }
   let scripts: Vec<Vec<Sexp>> = body[2].args().iter().map(|s| s.list().to_vec()).collect();
   let sched: Vec<usize> = body[3].args().iter().map(|s| s.usize()).collect();
+  let (s2, b2, h2) = (subj.clone(), beh.clone(), handles.clone());
+  let (mut trace, end) = run_threads(scripts, sched, move |op| run_op(op, &s2, &b2, &h2), true);
+  if end == "fin" {
+    trace.push_str(&format!(" (val {})", beh.peek()));
+  } else {
+    // parked threads are left behind (they hold crate mutexes): leak what they share
+    std::mem::forget(subj);
+    std::mem::forget(beh);
+    std::mem::forget(handles);
+  }
+  format!("{trace} {end}")
+}
+
+/// Runs the scripts on one thread each under the schedule; `op` performs one operation.  Returns the
+/// trace and how it ended: fin / deadlock / short / hang.
+pub(crate) fn run_threads<F>(scripts: Vec<Vec<Sexp>>, sched: Vec<usize>, op: F, record_acq: bool) -> (String, &'static str)
+where
+  F: Fn(&Sexp) + Send + Sync + 'static,
+{
+  let op = Arc::new(op);
   let n = scripts.len();
   let ctl = Arc::new(Ctl {
     m: Mutex::new(St { turn: None, reply: None, trace: vec![], names: HashMap::new() }),
     cv: Condvar::new(),
+    record_acq,
   });
   let mut joins = vec![];
   for (tid, script) in scripts.into_iter().enumerate() {
-    let (ctl, subj, beh, handles) = (ctl.clone(), subj.clone(), beh.clone(), handles.clone());
+    let (ctl, op) = (ctl.clone(), op.clone());
     joins.push(std::thread::spawn(move || {
       ME.with(|m| *m.borrow_mut() = Some((ctl.clone(), tid, 0, false)));
       LOCK_GATE.with(|g| {
@@ -193,9 +218,9 @@ pub fn run_ileave(body: &[Sexp]) -> String {
       });
       ctl.wait_turn(tid);
       let r = catch_unwind(AssertUnwindSafe(|| {
-        for (j, op) in script.iter().enumerate() {
+        for (j, op_sexp) in script.iter().enumerate() {
           ME.with(|m| m.borrow_mut().as_mut().unwrap().2 = j);
-          run_op(op, &subj, &beh, &handles);
+          op(op_sexp);
         }
       }));
       if r.is_err() {
@@ -261,18 +286,13 @@ pub fn run_ileave(body: &[Sexp]) -> String {
       end = "deadlock";
     }
   }
-  let mut trace = ctl.m.lock().unwrap().trace.join(" ");
+  let trace = ctl.m.lock().unwrap().trace.join(" ");
   if end == "fin" {
-    trace.push_str(&format!(" (val {})", beh.peek()));
     for j in joins {
       let _ = j.join();
     }
   } else {
-    // parked threads are left behind (they hold crate mutexes): leak them and what they share
     std::mem::forget(joins);
-    std::mem::forget(subj);
-    std::mem::forget(beh);
-    std::mem::forget(handles);
   }
-  format!("{trace} {end}")
+  (trace, end)
 }
